@@ -56,6 +56,34 @@ def match_known(known, prop, ob_id):
     return None
 
 
+def load_baseline(suites):
+    """Obligation ids that were discharged on the unchanged tree (committed under baseline/, written only by
+    --write-baseline at development time).  An obligation listed there that now has a solver model against it
+    is reported as a violation even when the model does not replay (line ends no-failing-input-found)."""
+    ids = set()
+    for s in suites:
+        p = os.path.join(ROOT, 'baseline', s + '.json')
+        if os.path.exists(p):
+            with open(p) as f:
+                ids |= set(json.load(f).get('discharged', []))
+    return ids
+
+
+def write_baseline(suite, src=None):
+    out = driver.run([suite], timeout_ms=10000, src=src, quiet=False, unit_limit_s=900)
+    ids = sorted({o['id'] for r in out['results'] for o in r['obligations'] if o['status'] == 'discharged'})
+    bad = sorted({o['id'] for r in out['results'] for o in r['obligations'] if o['status'] != 'discharged'})
+    os.makedirs(os.path.join(ROOT, 'baseline'), exist_ok=True)
+    import subprocess
+    head = subprocess.run(['git', '-C', '/repo', 'rev-parse', 'HEAD'], capture_output=True, text=True).stdout.strip()
+    with open(os.path.join(ROOT, 'baseline', suite + '.json'), 'w') as f:
+        json.dump({'repo_head': head, 'discharged': ids, 'not_discharged': bad}, f, indent=0)
+    print('baseline %s: %d discharged, %d not' % (suite, len(ids), len(bad)))
+    for b in bad:
+        print('  not discharged:', b)
+    return 0
+
+
 def ob_relevant(o, prop, unit):
     '''Is this obligation part of the argument for `prop`?'''
     if prop in o['props']:
@@ -70,8 +98,11 @@ def main(argv=None):
     ap.add_argument('--replay')
     ap.add_argument('--src', default=os.environ.get('PYVC_REPO_SRC'))
     ap.add_argument('--no-evidence', action='store_true')
+    ap.add_argument('--write-baseline', action='store_true')
     a = ap.parse_args(argv)
     prop = a.prop
+    if a.write_baseline:
+        return write_baseline(prop, a.src)
     seed = int(os.environ.get('VERIF_SEED', '0') or 0)
     if a.replay:
         from pyvc import replay
@@ -104,7 +135,35 @@ def main(argv=None):
         for t in more['trusted']:
             if t not in out['trusted']:
                 out['trusted'].append(t)
+    seen_units = set()
+    results = [r for r in results if not (r['unit'] in seen_units or seen_units.add(r['unit']))]
+    # second opinion before anything is reported: a unit with an open obligation is run again on its own
+    # (no reuse, fewer processes, twice the solver budget) so that a time-out under load is not mistaken
+    # for a failed proof
     known = load_known()
+    shaky = sorted({r['function'] for r in results if r.get('timeout') or any(
+        o['status'] != 'discharged' and match_known(known, prop, o['id']) is None for o in r['obligations'])})
+    retried = []
+    if shaky:
+        again = driver.run(suites, keys=shaky, timeout_ms=timeout_ms * 2, src=a.src, quiet=True, procs=6,
+                           unit_limit_s=900 if a.tier == 'quick' else 3600, no_cache=True)
+        fresh = {r['unit']: r for r in again['results']}
+        for i, r in enumerate(results):
+            r2 = fresh.get(r['unit'])
+            if r2 is None or r2.get('error'):
+                continue
+            st1 = {o['id']: o for o in r['obligations']}
+            # per obligation: discharged in either run counts (each run is a proof attempt of the same VC)
+            for o in r2['obligations']:
+                o1 = st1.get(o['id'])
+                if o['status'] != 'discharged' and o1 is not None and o1['status'] == 'discharged':
+                    o.update(status='discharged', models=[], backends=o1['backends'])
+            if r2.get('timeout') and not r.get('timeout'):
+                continue
+            results[i] = r2
+            retried.append(r['unit'])
+    baseline = load_baseline(suites)
+    base_units = {b.split('/')[0] for b in baseline}
     violations = []
     undecided = []
     problems = []
@@ -147,31 +206,48 @@ def main(argv=None):
             kind = ob_relevant(o, prop, r)
             kf = match_known(known, prop, o['id'])
             if kf is not None:
+                # a recorded finding: reported separately, not part of the obligations claimed discharged
+                n_ob -= 1
                 known_seen.append((kf, o))
                 continue
-            if kind == 'property' and o['status'] in ('failed', 'candidate'):
-                violations.append((r, o))
+            if o['status'] in ('failed', 'candidate'):
+                # the solver has a model against the clause: a clause of the property itself, or an
+                # auxiliary one (frame, callee precondition, loop invariant) the property's proof rests on
+                violations.append((r, o, kind))
             else:
                 undecided.append('%s: %s (%s clause)' % (o['id'], o['status'], kind))
     for msg in covers_bad:
         problems.append('vacuity guard: %s' % msg)
     # replay counterexamples
     vio_lines = []
+    vio_notes = []
     if violations:
         from pyvc import replay
-        for r, o in violations:
+        violations.sort(key=lambda v: 0 if v[2] == 'property' else 1)
+        for r, o, kind in violations:
             path, reproduced = replay.make_and_run(prop, r, o, a.src)
-            if reproduced is None:
-                # candidate model that does not reproduce: not a violation, the obligation stays undecided
-                undecided.append('%s: candidate counterexample did not reproduce on the real code' % o['id'])
+            # ("no undeclared exception escapes" exists as an obligation only when some path raises: on the
+            # unchanged tree it is discharged by absence, so it is in the baseline whenever its unit is)
+            in_base = o['id'] in baseline or (o['kind'] == 'no_exception' and o['id'].split('/')[0] in base_units)
+            if not reproduced and o['status'] == 'candidate' and not in_base:
+                # a candidate model (quantified hypotheses ignored) that does not replay, for an obligation
+                # never seen discharged on the unchanged tree: no ground to call it a violation
+                undecided.append('%s: candidate counterexample did not reproduce on the real code and the '
+                                 'obligation is not in the baseline of discharged obligations' % o['id'])
                 continue
             line = 'VIOLATION property=%s replay=%s' % (prop, path)
+            note = 'failed obligation: %s (%s clause; solver: %s; %s)' % (
+                o['id'], kind, o['status'], 'counterexample reproduced on the real code' if reproduced else
+                'discharged on the unchanged tree, now refuted; the model did not replay')
+            vio_notes.append(note)
             if not reproduced:
                 line += ' no-failing-input-found'
             vio_lines.append(line)
     for kf, o in known_seen:
         if kf['property'] == prop:
             print('KNOWN-FINDING: property=%s %s [%s]' % (prop, kf['what'], o['id']))
+    for note in vio_notes:
+        print(note)
     for line in vio_lines:
         print(line)
     wall = time.time() - t0
@@ -193,9 +269,9 @@ def main(argv=None):
             'units_reused_note': 'a unit result is reused only when the hash over the repository sources, all contract '
                                  'files, the engine and the solver budget is identical (several property checks of one '
                                  'tree state share most units); PYVC_NO_CACHE=1 disables reuse',
-            'undecided': undecided, 'checker_problems': problems,
+            'undecided': undecided, 'checker_problems': problems, 'units_run_twice': retried,
             'known_findings_seen': [{'what': kf['what'], 'obligation': o['id']} for kf, o in known_seen],
-            'violations': vio_lines,
+            'violations': vio_lines, 'failed_obligations': vio_notes,
             'samples': samples,
             'explanation': 'obligations are contract clauses (ensures / raises / invariants / callee preconditions / '
                            'frame / D-Bus signature conformance) of the functions listed, generated from the current '
